@@ -196,7 +196,25 @@ class GuardWalker(object):
             fl = kill(facts, killed)
             self.block(s.body, dict(fl))
             fo, _ = self.block(s.orelse, dict(fl))
-            return fl if not s.orelse else _meet(fl, fo), False
+            out = fl if not s.orelse else _meet(fl, fo)
+            # the search-loop idiom: `for T in IT: if C: return / raise` and nothing else — past the loop no element
+            # satisfied C, which is the fact `any(C for T in IT)` being false (the loop spelling of `if not any(...)`)
+            if (
+                not s.orelse
+                and len(s.body) == 1
+                and isinstance(s.body[0], ast.If)
+                and not s.body[0].orelse
+                and s.body[0].body
+                and isinstance(s.body[0].body[-1], (ast.Return, ast.Raise))
+                and not any(isinstance(x, (ast.Break, ast.Continue)) for x in ast.walk(s.body[0]))
+            ):
+                try:
+                    key = "any({} for {} in {})".format(ast.unparse(s.body[0].test), ast.unparse(s.target), ast.unparse(s.iter))
+                    out = dict(out)
+                    out[key] = False
+                except Exception:  # pragma: no cover
+                    pass
+            return out, False
         if isinstance(s, ast.While):
             killed = assigned_names(s.body)
             fl = kill(facts, killed)
